@@ -1,5 +1,6 @@
 pub mod basis;
 pub mod evidence;
+pub mod evlog;
 pub mod funcs;
 pub mod gen;
 pub mod jetty;
